@@ -355,13 +355,16 @@ def cargo_build(features=(), profile="debug", rustflags=(), no_default=False, ti
     with Lock("cargo.lock"):
         rc, out = sh(cmd, cwd=harness, env=env, timeout=timeout)
         if rc != 0:
-            return None, out
+            return None, diagnose_build_failure(out)
         src = os.path.join(env["CARGO_TARGET_DIR"], profile, bin_name)
         tag = hashlib.sha1(("%s|%s|%s|%s" % (sorted(features), profile, rustflags, no_default)).encode()).hexdigest()[:10]
         dst = os.path.join(BUILD, "bin", "%s-%s" % (bin_name, tag))
         os.makedirs(os.path.dirname(dst), exist_ok=True)
-        shutil.copyfile(src, dst)
-        os.chmod(dst, 0o755)
+        # another check may be executing the previous copy: never write into it (ETXTBSY); replace atomically
+        tmp = "%s.%d.tmp" % (dst, os.getpid())
+        shutil.copyfile(src, tmp)
+        os.chmod(tmp, 0o755)
+        os.replace(tmp, dst)
     return dst, out
 
 
@@ -380,6 +383,28 @@ def native_rustflags():
         return []
     have = ["+" + rust for cpu, rust in want if cpu in flags]
     return ["-C", "target-feature=" + ",".join(have)] if have else []
+
+
+def diagnose_build_failure(out):
+    """A harness build failure is reported as a violation (the property can no longer be checked). Say which kind it
+    is: if the repository itself still compiles WITHOUT the verification cfg but not WITH it, the add-only hooks under
+    #[cfg(cryptocorrosion_verif)] name private items that a (possibly harmless) rewrite renamed or moved: the hooks,
+    not necessarily a property, need attention."""
+    try:
+        env = dict(os.environ, CARGO_NET_OFFLINE="true", CARGO_TARGET_DIR=os.path.join(BUILD, "target-diagnose"))
+        env["RUSTFLAGS"] = "--cfg zerocopy_derive_union_into_bytes"
+        rc_plain, _ = sh(["cargo", "check", "--offline", "--quiet", "--workspace"], cwd=REPO, env=env, timeout=1200)
+        env["RUSTFLAGS"] = " ".join(BASE_RUSTFLAGS)
+        rc_hook, o2 = sh(["cargo", "check", "--offline", "--quiet", "--workspace"], cwd=REPO, env=env, timeout=1200)
+        if rc_plain == 0 and rc_hook != 0:
+            return ("HOOK-OUT-OF-DATE: the repository compiles without --cfg %s but not with it: the verification hooks "
+                    "(cfg-guarded, add-only) no longer match the private items they read; this is not by itself a property "
+                    "violation. rustc says:\n%s\n--- harness build output ---\n%s" % (GUARD, o2[-1500:], out[-1500:]))
+        if rc_plain != 0:
+            return "THE REPOSITORY ITSELF DOES NOT COMPILE (cargo check --workspace):\n" + out[-3000:]
+    except Exception as e:  # diagnosis is best effort
+        return out + "\n(diagnosis failed: %s)" % e
+    return out
 
 
 def run_harness(binary, args, timeout=1800, env_extra=None):
